@@ -337,13 +337,41 @@ def r2(ctx):
 def r3(ctx):
     run = ctx.func(PH + ".run_whatshap")
     cfg = ctx.cfg(run)
-    defs = [(s, v) for s, v in util.assignments_to(run.node, "accessible_positions") if isinstance(v, ast.AST)]
-    un = [(s, v) for s, v in defs if "homozygous_positions" in u(v)]
-    ok = len(un) == 1
-    if ok:
-        ga = guard_atoms(cfg, cfg.node_of(un[0][0]))
-        ok = ("1 < len(family)", True) in ga and ("genetic_haplotyping", True) in ga and u(un[0][1]) in ("sorted(set(accessible_positions).union(homozygous_positions))",)
-    ctx.ob(run.qual, "homozygous-positions-accessible-only-in-genetic-mode", ok, run.loc(un[0][0]) if un else run.loc(), "homozygous positions join the accessible ones exactly for len(family) > 1 with genetic haplotyping" if ok else "the union with homozygous_positions is not guarded by len(family) > 1 and genetic_haplotyping")
+    # what reaches the subsetting of the variant table as accessible positions, path by path (the computation may sit in a
+    # helper, use other local names, or return early): the covered positions, joined with the homozygous ones exactly on the
+    # paths with len(family) > 1 and genetic haplotyping
+    from sa import pathfx
+
+    sub = [c for c in ctx.prog.calls_in(run.node) if isinstance(c.func, ast.Attribute) and c.func.attr == "subset_rows_by_position" and u(c.func.value) == "phasable_variant_table" and len(c.args) == 1]
+    gp = [n for n in walk_function(run.node) if isinstance(n, (ast.Assign, ast.AnnAssign)) and "all_reads.get_positions()" in u(n.value if n.value is not None else n)]
+    ok, where, why = None, run.loc(), "cannot find where the accessible positions are computed and used"
+    if len(sub) == 1 and len(gp) == 1:
+        where = run.loc(sub[0])
+        try:
+            sums = pathfx.summaries(cfg, src=cfg.node_of(gp[0]), dst=cfg.node_containing(sub[0]))
+        except OverflowError:
+            sums = []
+        COV = ("sorted(all_reads.get_positions())",)
+        UNI = tuple("sorted(set(%s).union(homozygous_positions))" % x for x in ("sorted(all_reads.get_positions())", "all_reads.get_positions()")) + tuple("sorted(set(%s) | set(homozygous_positions))" % x for x in ("sorted(all_reads.get_positions())", "all_reads.get_positions()"))
+        if sums:
+            ok, why = True, ""
+        for ps in sums:
+            val = u(pathfx.subst(sub[0].args[0], ps.env))
+            fam = ps.has("1 < len(family)", True) and ps.has("genetic_haplotyping", True)
+            nofam = ps.has("1 < len(family)", False) or ps.has("genetic_haplotyping", False) or any(((not p_) and t_ in ("(1 < len(family) and genetic_haplotyping)", "(genetic_haplotyping and 1 < len(family))")) or (p_ and t_ in ("(not 1 < len(family) or not genetic_haplotyping)", "(not genetic_haplotyping or not 1 < len(family))")) for t_, p_ in ps.atoms)
+            if "homozygous_positions" in val:
+                if not fam:
+                    ok, why = False, "the union with homozygous_positions is not guarded by len(family) > 1 and genetic_haplotyping"
+                elif val not in UNI:
+                    ok, why = (None if ok else ok), "accessible positions in genetic mode are %s" % val[:80]
+            else:
+                if fam:
+                    ok, why = False, "with len(family) > 1 and genetic haplotyping the homozygous positions are not added to the accessible ones (%s)" % val[:60]
+                elif val not in COV:
+                    ok, why = (None if ok else ok), "accessible positions are %s" % val[:80]
+                elif not nofam and ok:
+                    ok, why = None, "cannot read under which condition the homozygous positions are left out"
+    ctx.ob(run.qual, "homozygous-positions-accessible-only-in-genetic-mode", ok, where, "homozygous positions join the accessible ones exactly for len(family) > 1 with genetic haplotyping" if ok else why)
     aa = ctx.func(PH + ".add_arguments")
     opt = [c for c in ctx.prog.calls_in(aa.node) if any(isinstance(a, ast.Constant) and a.value == "--no-genetic-haplotyping" for a in c.args)]
     ok = len(opt) == 1
